@@ -374,7 +374,11 @@ theorem readCount_ext (cfg : DecCfg) (inp r ext : Bytes) (n : Nat) (h : readCoun
       cases hc : cfg.countLimit with
       | none =>
         simp only [hc] at h ⊢
-        injection h with h; injection h with h1 h2; subst h1 h2; rfl
+        by_cases hb : m > r1.length + 65536
+        · simp [hb] at h
+        · have hb' : ¬ m > (r1 ++ ext).length + 65536 := by simp; omega
+          simp only [hb, hb', if_false] at h ⊢
+          injection h with h; injection h with h1 h2; subst h1 h2; rfl
       | some l =>
         simp only [hc] at h ⊢
         by_cases hb : m > l
